@@ -39,8 +39,30 @@ def u64(n):
     return VInt(z3.BitVecVal(n, 64), False)
 
 
+# Which field of `SourceLocation` holds the line and which the column is read off the real
+# `SourceLocation::new(line, col)` (executed once per program), so that the templates follow the
+# type's representation instead of assuming it.
+LOC_IDX = {"line": 0, "col": 1, "for": None}
+
+
+def learn_loc_layout(ex):
+    if LOC_IDX["for"] == id(ex.P):
+        return
+    LOC_IDX.update(line=0, col=1)
+    LOC_IDX["for"] = id(ex.P)
+    try:
+        f = find_func(ex.P, "new", "SourceLocation")
+        v = ex.run_function(f, [u64(7), u64(9)], 3)
+        vals = [x.concrete() for x in v.fields]
+        LOC_IDX.update(line=vals.index(7), col=vals.index(9))
+    except Exception:
+        pass
+
+
 def loc(line, col):
-    return VStruct("SourceLocation", [u64(line), u64(col)])
+    f = [None, None]
+    f[LOC_IDX["line"]], f[LOC_IDX["col"]] = u64(line), u64(col)
+    return VStruct("SourceLocation", f)
 
 
 def mk_token(ex, i, kind, *fields, sym=None):
@@ -109,6 +131,7 @@ PARSE_CFG = dict(
 
 def make_args_for(build):
     def make_args(ex, func):
+        learn_loc_layout(ex)
         toks = build(ex)
         seq = VSeq("TokenWithLoc", len(toks), toks, ex.new_vid())
         root = ex.heap(seq, "tokens")
@@ -126,7 +149,7 @@ def variant(ex, v):
 def span_of(node):
     """(start col, end col) of an AstNode (line 0 everywhere in the templates)"""
     rng = node.fields[0]
-    return (rng.fields[0].fields[1].concrete(), rng.fields[1].fields[1].concrete())
+    return (rng.fields[0].fields[LOC_IDX["col"]].concrete(), rng.fields[1].fields[LOC_IDX["col"]].concrete())
 
 
 def shape(ex, v, spans):
